@@ -1,0 +1,58 @@
+//go:build verif
+
+package pogreb
+
+// Contracts for recovery.go and the iterator constructor (GoVC, see /verif/DESIGN.md). Comment-only file.
+
+// a segment as recovery sees it: open file with FILE-INV (cached size == length of the file), header present,
+// offsets fit the 32-bit record offset
+//@ spec func segRecOK(s *segment) bool = s != nil && s.file != nil && fileInv(s.file) && s.file.size >= 512 && s.file.size <= 0xffffffff
+
+//@ func newSegmentIterator(f *segment) (it *segmentIterator, err error) [C04,C08,C19]
+//@   requires seg: segRecOK(f)
+//@   ensures inv: err == nil ==> it != nil && fresh(it) && segItInv(it) && it.f == f && it.offset == 512 && fresh(it.buf)
+//@   ensures err: err != nil ==> isIOErr(err)
+//@   ensures files: forall i ref :: fLen[i] == old(fLen[i]) && fData[i] == old(fData[i]) && fDur[i] == old(fDur[i])
+//@   ensures handles: forall h ref :: old(hOpen[h]) ==> hOpen[h] && fidOf[h] == old(fidOf[h])
+//@   modifies hPos, fidOf, hOpen
+
+// pogreb's own sentinel errors are created by errors.New at package initialisation: they are not storage errors
+//@ axiom pogreb-sentinels-not-io: !isIOErr(ErrIterationDone) && !isIOErr(errCorrupted)
+
+// a validating reader of the documented format accepts a record at offset o of a file of length n
+//@ spec func validAt(m mem, n int64, o int64) bool = n - o >= 6 && n - o >= int64(recSize(m, int(o))) && crcOK(m, int(o))
+
+// the segments still to be replayed, and the one being replayed, are well formed and are pairwise different files
+// (quantified over absolute positions of the backing array, so that it.segments = it.segments[1:] keeps the instances)
+//@ spec func recSegsOK(it *recoveryIterator) bool = forall q int :: off(it.segments) <= q && q < off(it.segments)+len(it.segments) ==> segRecOK(contents(it.segments)[q])
+//@ spec func segsDiffer(a *segment, b *segment) bool = a.file != b.file && a.file.File != b.file.File && fidOf[a.file.File] != fidOf[b.file.File]
+//@ spec func recSegsDistinct(it *recoveryIterator) bool = forall q1 int, q2 int :: off(it.segments) <= q1 && q1 < q2 && q2 < off(it.segments)+len(it.segments) ==> segsDiffer(contents(it.segments)[q1], contents(it.segments)[q2])
+//@ spec func recCurOK(it *recoveryIterator) bool = it.segit != nil ==> segItInv(it.segit) && segRecOK(it.segit.f) && it.segit.offset >= 512 && (forall q int :: off(it.segments) <= q && q < off(it.segments)+len(it.segments) ==> segsDiffer(contents(it.segments)[q], it.segit.f))
+//@ spec func recItInv(it *recoveryIterator) bool = it != nil && recSegsOK(it) && recSegsDistinct(it) && recCurOK(it)
+
+//@ func (it *recoveryIterator) next() (rec record, err error) [C04,C08,C19]
+//@   requires inv: recItInv(it)
+//@   ensures inv: !isIOErr(err) ==> recItInv(it)
+//@   ensures [C04] fileinv-rest: !isIOErr(err) ==> forall q int :: old(off(it.segments)) <= q && q < old(off(it.segments)+len(it.segments)) ==> segRecOK(old(contents(it.segments))[q])
+//@   ensures [C04] fileinv-cur: !isIOErr(err) && old(it.segit) != nil ==> segRecOK(old(it.segit.f))
+//@   ensures done: err == ErrIterationDone ==> it.segit == nil && len(it.segments) == 0
+//@   ensures [C08] valid: err == nil ==> it.segit != nil && rec.segmentID == it.segit.f.id && validAt(fData[fidOf[it.segit.f.file.File]], fLen[fidOf[it.segit.f.file.File]], int64(rec.offset)) && int64(it.segit.offset) == int64(rec.offset) + int64(recSize(fData[fidOf[it.segit.f.file.File]], int(rec.offset)))
+//@   ensures [C08] recdata: err == nil ==> fresh(rec.data) && len(rec.data) == recSize(fData[fidOf[it.segit.f.file.File]], int(rec.offset)) && sameBytes(contents(rec.data), off(rec.data), fData[fidOf[it.segit.f.file.File]], int(rec.offset), len(rec.data))
+//@   ensures [C08] reckey: err == nil ==> arr(rec.key) == arr(rec.data) && off(rec.key) == off(rec.data)+6 && len(rec.key) == recK(fData[fidOf[it.segit.f.file.File]], int(rec.offset)) && arr(rec.value) == arr(rec.data) && off(rec.value) == off(rec.data)+6+len(rec.key) && len(rec.value) == recV(fData[fidOf[it.segit.f.file.File]], int(rec.offset))
+//@   ensures [C08] onlyshrink: !isIOErr(err) ==> forall h ref :: old(hOpen[h]) ==> hOpen[h] && fidOf[h] == old(fidOf[h]) && fLen[fidOf[h]] <= old(fLen[fidOf[h]])
+//@   ensures [C08] keeps-valid-prefix: !isIOErr(err) ==> forall h ref, q int :: old(hOpen[h]) && 0 <= q && q < int(fLen[fidOf[h]]) ==> fData[fidOf[h]][q] == old(fData[fidOf[h]])[q]
+//@   ensures errs: err != nil ==> isIOErr(err) || err == ErrIterationDone
+// a segment is cut only where the validating reader of the documented format rejects the record (in the file as it is at that moment)
+//@   at call Truncate@1: assert [C08] cut-at-invalid: !validAt(fData[fidOf[it.segit.f.file.File]], fLen[fidOf[it.segit.f.file.File]], int64(it.segit.offset))
+//@   at call Truncate@1: assert [C08] cut-shrinks: int64(it.segit.offset) <= fLen[fidOf[it.segit.f.file.File]] && it.segit.offset >= 512
+//@   modifies it.segit, it.segments, any(file).size, any(segmentIterator).offset, it.segit.buf[*], fLen, fData, fDur, hPos, fidOf, hOpen
+//@   loop 1:
+//@     invariant recItInv(it) && it == old(it)
+//@     invariant forall q int :: old(off(it.segments)) <= q && q < old(off(it.segments)+len(it.segments)) ==> segRecOK(old(contents(it.segments))[q])
+//@     invariant old(it.segit) != nil ==> segRecOK(old(it.segit.f))
+//@     invariant it.segit == nil || it.segit == old(it.segit) || (fresh(it.segit) && fresh(it.segit.buf))
+//@     invariant arr(it.segments) == old(arr(it.segments)) && off(it.segments)+len(it.segments) == old(off(it.segments)+len(it.segments)) && off(it.segments) >= old(off(it.segments)) && len(it.segments) >= 0 && contents(it.segments) == old(contents(it.segments))
+//@     invariant it.segit != nil ==> (it.segit == old(it.segit) && off(it.segments) == old(off(it.segments))) || (off(it.segments) > old(off(it.segments)) && it.segit.f == old(contents(it.segments))[off(it.segments)-1])
+//@     invariant forall h ref :: old(hOpen[h]) ==> hOpen[h] && fidOf[h] == old(fidOf[h]) && fLen[fidOf[h]] <= old(fLen[fidOf[h]])
+//@     invariant forall h ref, q int :: old(hOpen[h]) && 0 <= q && q < int(fLen[fidOf[h]]) ==> fData[fidOf[h]][q] == old(fData[fidOf[h]])[q]
+//@     decreases 2*len(it.segments) + ite(it.segit != nil, 1, 0)
